@@ -84,6 +84,23 @@ def run(prop, tier, replay):
     }
     if verdict["mismatch"]:
         cov["model_mismatch_samples"] = verdict["mismatch"][:5]
+    if not replay:
+        # RetainManager in front of a store that fails at will: its change detection must never be ahead of the store
+        mcm = run_tlc("MCRetainMgr", "MCRetainMgr", workers=2, timeout=300, tag="mc-c10-mgr")
+        negm = run_tlc("MCRetainMgr", "MCRetainMgr_cachefirst", workers=2, timeout=300, allow_violation=True, tag="mc-c10-mgr-neg")
+        if "Invariant CacheIsDisk is violated" not in negm["stdout"]:
+            raise ToolError("the deviation MCRetainMgr_cachefirst does not violate CacheIsDisk:\n" + negm["stdout"][-1500:])
+        mtr = work / "retainmgr.ndjson"
+        tpv(["retainmgr-run", "--seed", seed(), "--runs", 300 if tier == "quick" else 20000, "--out", mtr], timeout=3000)
+        mrows = read_ndjson(mtr)
+        mver, _ = validate_trace("RetainMgrTrace", mtr, tag="trace-c10-mgr", timeout=1800)
+        if mver["events"] != len(mrows):
+            raise ToolError("RetainMgrTrace did not consume every event")
+        for b in mver["bad"]:
+            why = "+".join(sorted(b["why"]))
+            rep.violation(f"retain-manager:{why}", {"retain_manager": True, "seed": seed(), "event": mrows[b["line"] - 1], "why": b["why"]},
+                          f"RetainManager history (run {b['run']}): {why} at {json.dumps(mrows[b['line'] - 1])}")
+        cov.update({"retain_manager_saves": mver["saves"], "retain_manager_rejected": len(mver["bad"]), "retain_manager_model_states": mcm.get("distinct", 0)})
     return rep.finish(cov, assumptions=[
         "process death is produced by SIGKILL from an LD_PRELOAD shim at libc call boundaries (open/write/fsync/rename/close/unlink/ftruncate); power loss is decided on the model only",
         "decoder totality is sampled (structured corruptions under a 1 GiB address-space limit), not proved"])
